@@ -213,6 +213,13 @@ class Builder:
                 u = q * np.sign(np.diag(r))                                               # real (float) orthogonal
             elif r_kind < 0.3:
                 u = np.diag(np.exp(1j * np.random.default_rng(seed).uniform(0, 6.3, size=k)))
+            elif r_kind < 0.42:
+                # weakly coupled: a unitary within 1e-5 ... 1e-9 of a diagonal one (tiny but non-zero off-diagonal entries)
+                from scipy.linalg import expm  # noqa: PLC0415
+                g = np.random.default_rng(seed)
+                h = g.normal(size=(k, k)) + 1j * g.normal(size=(k, k))
+                eps = float(g.choice([3e-6, 1e-6, 1e-7, 1e-9]))
+                u = expm(1j * eps * (h + h.conj().T)) @ np.diag(np.exp(1j * g.uniform(0, 6.3, size=k)))
             self.last = ['unitary', m, k, seed, self.state(c)]
             arr = np.array(u)
             un = self.lw.Unitary(arr if rng.random() < 0.8 else arr.tolist() if False else arr)
